@@ -34,6 +34,8 @@ type C12Case struct {
 	// once (a transient failure that consumes nothing); the caller calls Read again (up to three
 	// times). The end of the data may then be reported only for what the file really contains.
 	Stutter int `json:",omitempty"`
+	// Kind > 0: the source is sourceOf(Kind) (envkinds.go) instead of the fragmentation modes of Src
+	Kind int `json:",omitempty"`
 }
 
 var errStutter = errors.New("transient source failure (injected)")
@@ -215,11 +217,24 @@ func c12Case(r *core.Run, menu []Stream, p C12Case) {
 	cs := core.MkCase("C12", "concat", p)
 	want, wantErr := c12Expect(menu, p)
 	out, err, proto, pan := xzDecodeSrc(data, p.DictCap, p.Single, p.Src, p.Stutter)
+	if p.Kind > 0 {
+		pan = core.Guard(func() {
+			var rd *xz.Reader
+			rd, err = xz.ReaderConfig{DictCap: p.DictCap, SingleStream: p.Single}.NewReader(sourceOf(p.Kind, data))
+			if err != nil {
+				return
+			}
+			out, err, proto = readAll(rd, 4096, 256<<20)
+		})
+	}
 	var names []string
 	for _, s := range p.Streams {
 		names = append(names, menu[s].Name)
 	}
 	desc := fmt.Sprintf("streams=%v lead=%d pads=%v trailing=%d single=%v poke=%v source-mode=%d ReaderConfig.DictCap=%d", names, p.Lead, p.Pads, p.Trailing, p.Single, p.Poke, p.Src, p.DictCap)
+	if p.Kind > 0 {
+		desc += "; source: " + sourceKindNames[p.Kind]
+	}
 	if p.Stutter > 0 {
 		desc += fmt.Sprintf("; the source fails once (0 bytes, error) at file offset %d of %d and the caller calls Read again", p.Stutter-1, len(data))
 	}
@@ -305,7 +320,7 @@ func c12Case(r *core.Run, menu []Stream, p C12Case) {
 
 func runC12(r *core.Run) {
 	menu := c12Menu()
-	r.Rule = "all lists of 1..3 streams over a base menu of 8 (plus two extended entries with uncompressed chunks and different dictionary sizes, crossed with aligned paddings; and ReaderConfig.DictCap in {default, 4096, 5000, 100000, 4 MiB}) (library-, reference- and liblzma-written; empty with one empty block and without any block; 4 check types; multi-block; 4 KiB and 64 KiB dictionaries with a far match) x 4 source modes (bytes.Reader / last bytes with io.EOF / one byte per Read / both) x padding: lists <=2: every length 0..16 between and after; lists of 3: {0,4,8} plus one misaligned; leading padding 1..8; trailing non-zero bytes (lengths 1..11); a non-zero byte at every position of a 4/8/12-byte padding group; x SingleStream on/off; plus a transient source failure (0 bytes, error, once) at the end of each stream and at the start of every padding word behind it, with the caller calling Read again; oracle = 20-line reference semantics. states/transitions = stream-list automaton (start/between/error/done); non-trivial = distinct (layout class, outcome class, bytes, expectation)"
+	r.Rule = "all lists of 1..3 streams over a base menu of 8 (plus two extended entries with uncompressed chunks and different dictionary sizes, crossed with aligned paddings; and ReaderConfig.DictCap in {default, 4096, 5000, 100000, 4 MiB}) (library-, reference- and liblzma-written; empty with one empty block and without any block; 4 check types; multi-block; 4 KiB and 64 KiB dictionaries with a far match) x 4 source modes (bytes.Reader / last bytes with io.EOF / one byte per Read / both) x padding: lists <=2: every length 0..16 between and after; lists of 3: {0,4,8} plus one misaligned; leading padding 1..8; trailing non-zero bytes (lengths 1..11); a non-zero byte at every position of a 4/8/12-byte padding group; x SingleStream on/off; lists of one and two streams x all paddings also through bufio sources whose fills end on and off the 4-byte grid; plus a transient source failure (0 bytes, error, once) at the end of each stream and at the start of every padding word behind it, with the caller calling Read again; oracle = 20-line reference semantics. states/transitions = stream-list automaton (start/between/error/done); non-trivial = distinct (layout class, outcome class, bytes, expectation)"
 	var cases []C12Case
 	n := c12Base // the base menu is crossed completely
 	maxPad := 16
@@ -468,12 +483,29 @@ func runC12(r *core.Run) {
 		}
 	}
 	r.Extra("transient_failure_cases", nst)
+	// buffered sources (Peek / Discard / Buffered) whose fills end on and off the 4-byte grid: all lists
+	// of one and two streams over the first three menu entries x all paddings 0..16, trailing bytes
+	for _, kind := range []int{1, 2, 9, 10, 11} {
+		for a := 0; a < 3; a++ {
+			for pa := 0; pa <= maxPad; pa++ {
+				for _, single := range []bool{false, true} {
+					cases = append(cases, C12Case{Streams: []int{a}, Pads: []int{pa}, Trailing: -1, Single: single, Kind: kind})
+				}
+				cases = append(cases, C12Case{Streams: []int{a}, Pads: []int{pa}, Trailing: 0xFD, TailLen: 1, Kind: kind})
+				for b := 0; b < 3; b++ {
+					for _, pb := range []int{0, 1, 4, 7, 8} {
+						cases = append(cases, C12Case{Streams: []int{a, b}, Pads: []int{pa, pb}, Trailing: -1, Kind: kind})
+					}
+				}
+			}
+		}
+	}
 	// every layout with every source mode (the SingleStream probe and the padding reads see short
 	// reads and data delivered together with io.EOF)
 	base := cases
 	for mode := 1; mode <= 3; mode++ {
 		for _, c := range base {
-			if c.Stutter > 0 {
+			if c.Stutter > 0 || c.Kind > 0 {
 				continue
 			}
 			c.Src = mode
